@@ -140,9 +140,35 @@ def _mixed_block_cases():
                     yield {"rankings": d, "scheme": s, "namekind": "mixed", "pulp": True}
 
 
+CHEAP_TIES = [D.unifying(.5), D.pseudo(.5), D.induced(.5), D.pseudo(.375), D.unifying(.25), D.pseudo(),
+              [[0., 1., .375, 0., 1., 0.], [.375, .375, 0., .375, .375, 0.]]]
+
+
+def _cycle_cases():
+    """Condorcet cycles (both orientations with respect to the order of first appearance, 3 and 4 elements), alone and
+    next to an all-tied / a partly tied ranking, under schemes where ties are cheap: the component is one strongly
+    connected component whose optimum needs ties although no single pair prefers a tie; every exact back end, pulp too"""
+    base = [
+        [[[0], [1], [2]], [[1], [2], [0]], [[2], [0], [1]]],
+        [[[2], [1], [0]], [[1], [0], [2]], [[0], [2], [1]]],
+        [[[0], [1], [2], [3]], [[1], [2], [3], [0]], [[2], [3], [0], [1]], [[3], [0], [1], [2]]],
+        [[[3], [2], [1], [0]], [[2], [1], [0], [3]], [[1], [0], [3], [2]], [[0], [3], [2], [1]]],
+    ]
+    for d in base:
+        u = D.universe_of(d)
+        for extra in ([], [[list(u)]], [[u[:2], u[2:]]], [[list(u)], [list(u)]]):
+            for s in CHEAP_TIES:
+                yield {"rankings": d + [[list(b) for b in r] for r in extra], "scheme": s, "namekind": "canon",
+                       "pulp": True}
+                yield {"rankings": [[list(b) for b in r] for r in extra] + d, "scheme": s, "namekind": "canon",
+                       "pulp": True}
+
+
 def gen_cases(tier, seed):
     quick = tier == "quick"
     for c in _mixed_block_cases():
+        yield c
+    for c in _cycle_cases():
         yield c
     small = (D.PRESETS[:2] + [D.GENERIC_B, D.BOUNDARY[4]]) if quick else D.SCHEMES_ALL
     for s in small:
